@@ -96,7 +96,7 @@ def main():
             checks = {}
             for p in (a.props.split(",") if a.props else [a.prop]):
                 t = time.time()
-                env = dict(VERIF_REPO=wt, VERIF_BUILD=os.path.join(VERIF, ".build", "seeded"))
+                env = dict(VERIF_REPO=wt, VERIF_BUILD=os.path.join(VERIF, ".build", os.environ.get("SEEDVAL_BUILD", "seeded")))
                 rc3, out3 = sh([os.path.join(VERIF, "check"), p], cwd=VERIF, env=env, timeout=3000)
                 lines = [l for l in out3.splitlines() if l.startswith("VIOLATION") or l.startswith("KNOWN") or l.startswith("  problem") or l.startswith(p + " tier")]
                 viol = [l for l in lines if l.startswith("VIOLATION")]
